@@ -584,7 +584,8 @@ bool Parser::parse_patch_header(Patch& patch, PatchHeaderInfo& header_info, int 
         }
 
         if (parser.consume_specific("Prereq: ")) {
-            parser.parse_file_line(strip, patch.prerequisite);
+            // NOTE: this is a word to look for in the file and not the name of one, there is nothing to strip.
+            parser.parse_file_line(0, patch.prerequisite);
             continue;
         }
 
